@@ -12,6 +12,8 @@ Definition chk_classes : bool :=
   forallb (fun p => match assoc (snd p) class_mat with Some m => doc_ok (fst p) m | None => false end) class_map.
 Definition chk_fns : bool :=
   forallb (fun p => match assoc (fst p) gates_fn with Some (_, m) => doc_ok (snd p) m | None => false end) fn_names.
+(* the operator that the deprecated N/target expansion branch of a gate function embeds is the function's own matrix *)
+Definition chk_expansions : bool := forallb (fun p => meqb (fst (snd p)) (snd (snd p))) expansions.
 Definition chk_phase : bool :=
   match topoly globalphase_ex, topoly (Exp (Mul (Imag 1) (Var 0))) with Some p, Some q => peqb p q | _, _ => false end.
 (* U U^dagger = U^dagger U = 1, symbolically (dagger = transpose + conjugation u -> u^-1, z -> z^-1) *)
@@ -29,6 +31,7 @@ Lemma chk_dispatch_true : chk_dispatch = true. Proof. vm_compute. reflexivity. Q
 Lemma chk_classes_true : chk_classes = true. Proof. vm_compute. reflexivity. Qed.
 Lemma chk_fns_true : chk_fns = true. Proof. vm_compute. reflexivity. Qed.
 Lemma chk_phase_true : chk_phase = true. Proof. vm_compute. reflexivity. Qed.
+Lemma chk_expansions_true : chk_expansions = true. Proof. vm_compute. reflexivity. Qed.
 Lemma chk_unitary_true : chk_unitary = true. Proof. vm_compute. reflexivity. Qed.
 Lemma chk_cover_true : chk_cover = true. Proof. vm_compute. reflexivity. Qed.
 
@@ -59,6 +62,12 @@ Lemma fn_doc R fn name ar0 m : In (fn, name) fn_names -> assoc fn gates_fn = Som
 Proof.
   intros H Hm. pose proof chk_fns_true as C. unfold chk_fns in C. rewrite forallb_forall in C.
   specialize (C (fn, name) H). cbn [fst snd] in C. rewrite Hm in C. apply (doc_ok_sound R name m C).
+Qed.
+
+Lemma expansion_embeds_gate R fn inner own : In (fn, (inner, own)) expansions -> agrees R inner own.
+Proof.
+  intros H. pose proof chk_expansions_true as C. unfold chk_expansions in C. rewrite forallb_forall in C.
+  specialize (C (fn, (inner, own)) H). cbn [fst snd] in C. intros r c. apply meqb_sound. exact C.
 Qed.
 
 Lemma paths_agree R name m1 cls m2 : In (name, m1) dispatch -> In (name, cls) class_map ->
